@@ -192,7 +192,12 @@ func (s *c10Sys) Apply(e clustermc.Ev) []clustermc.Fail {
 		}
 	case "put":
 		k := s.P.Keys[e.A]
-		r := s.KV.Put(k, []byte("0123456789"), simcluster.PutOpt{})
+		opt := simcluster.PutOpt{}
+		if e.B == 1 {
+			// an expiry far beyond the idle window: the key is still subject to the window
+			opt.EX = time.Hour
+		}
+		r := s.KV.Put(k, []byte("0123456789"), opt)
 		if r.Err != "" {
 			fs = append(fs, clustermc.Fail{Key: "put-failed/" + strings.SplitN(r.Err, ":", 2)[0], What: fmt.Sprintf("Put(%s) failed with %q although only an eviction limit is in the way", k, r.Err)})
 			return fs
@@ -252,7 +257,11 @@ func (s *c10Sys) Canon() string {
 			es := append(f.Entries[:0:0], f.Entries...)
 			sort.Slice(es, func(i, j int) bool { return es[i].LastAccess < es[j].LastAccess })
 			for _, e := range es {
-				b.WriteString(e.Key + ",")
+				b.WriteString(e.Key)
+				if e.TTL != 0 {
+					b.WriteString("*") // carries an expiry of its own
+				}
+				b.WriteString(",")
 			}
 			fmt.Fprintf(&b, "t%d)", len(f.Tables))
 		}
@@ -286,6 +295,7 @@ func c10Specs(tier string) []*clustermc.Spec {
 			for i := range p.Keys {
 				alpha = append(alpha, clustermc.Ev{K: "get", A: i})
 			}
+			alpha = append(alpha, clustermc.Ev{K: "put", A: 0, B: 1}) // Put with EX 1h
 			alpha = append(alpha, clustermc.Ev{K: "tick", B: 60}, clustermc.Ev{K: "tick", B: 120}, clustermc.Ev{K: "evict"})
 			if p.Opts.TableSize != 0 && p.Opts.TableSize < 1024 {
 				alpha = append(alpha, clustermc.Ev{K: "fill"})
